@@ -67,21 +67,33 @@ mod verif_search {
     fn verif_search_c18_agree() {
         let key = [9u8; 40];
         let mut n = 0u64;
-        for dc in 1..=3u8 { for h in 1..=4u8 { for w in 1..=4u8 { for count in 1..=(h * w).min(5) { for seed in [0u64, 3, 0x1234_5678_9abc_def0] {
+        // shapes: every small card, then STRUCTURED digit counts (around powers of two, the u8 maximum) and the largest cards (255 cells)
+        let mut shapes: Vec<(u8, u8, u8)> = Vec::new();
+        for dc in 1..=3u8 { for h in 1..=4u8 { for w in 1..=4u8 { shapes.push((dc, h, w)); } } }
+        for dc in [4u8, 5, 7, 8, 9, 10, 15, 16, 17, 31, 32, 33, 64, 65, 128, 255] { for (h, w) in [(1u8, 1u8), (2, 3), (3, 2)] { shapes.push((dc, h, w)); } }
+        for (h, w) in [(1u8, 255u8), (255, 1), (15, 17), (17, 15), (5, 51)] { shapes.push((2, h, w)); }
+        for (dc, h, w) in shapes { for count in 1..=((h as u16 * w as u16).min(5) as u8) { for seed in [0u64, 3, 0x1234_5678_9abc_def0] {
             let c = card(dc, h, w);
             let printed: Vec<String> = c.to_printer().collect();
             let mut v = MatrixCardVerifier::new(count, h, seed, w, &key);
             let mut wrong = MatrixCardVerifier::new(count, h, seed, w, &key);
             let mut first = true;
+            // the digits a user reads off the card, in order; `wrong_last` differs in the very last digit only
+            let mut entered: Vec<u8> = Vec::new();
             for round in 0..count {
                 let (x, y) = match v.get_matrix_coordinates(round) { Some(p) => p, None => { println!("REPLAY-FAIL c18_agree no coordinates for round {}", round); return; } };
                 for ch in printed[y as usize * w as usize + x as usize].bytes() {
                     let d = ch - b'0';
                     v.enter_value(d);
+                    entered.push(d);
                     wrong.enter_value(if first { (d + 1) % 10 } else { d });
                     first = false;
                 }
             }
+            if entered.len() != count as usize * dc as usize { println!("REPLAY-FAIL c18_agree digit_count={} height={} width={} count={} seed={} printed cells give {} digits", dc, h, w, count, seed, entered.len()); return; }
+            let mut wrong_last = MatrixCardVerifier::new(count, h, seed, w, &key);
+            for (k, d) in entered.iter().enumerate() { wrong_last.enter_value(if k + 1 == entered.len() { (*d + 1) % 10 } else { *d }); }
+            if verify_matrix_card_hash(&c, count, seed, &key, &wrong_last.into_proof()) { println!("REPLAY-FAIL c18_agree digit_count={} height={} width={} count={} seed={} a proof with the last digit changed was accepted", dc, h, w, count, seed); return; }
             n += 1;
             let good = v.clone().into_proof();
             // every single-byte alteration of the correct proof must be refused (the comparison covers all 20 bytes)
@@ -92,7 +104,7 @@ mod verif_search {
             let ok = verify_matrix_card_hash(&c, count, seed, &key, &v.into_proof());
             let bad = verify_matrix_card_hash(&c, count, seed, &key, &wrong.into_proof());
             if !ok || bad { println!("REPLAY-FAIL c18_agree digit_count={} height={} width={} count={} seed={} accepted_correct={} accepted_wrong={}", dc, h, w, count, seed, ok, bad); return; }
-        } } } } }
+        } } }
         println!("REPLAY-STATS c18_agree inputs={} all-ok", n);
     }
 }
